@@ -226,7 +226,7 @@ class Driver(object):
                 if sk == "good" and len(listing) == 1:
                     a = a.reshape(listing[0].shape)       # single tensor: get_param_tensor returned it unflattened
                 res = self.pk.construct_from_tensor(a, unique=u)
-                ev.update(self._built(res, lambda x: _index_by_value(offs, listing, x)))
+                ev.update(self._built(res, (lambda used_: (lambda x: _index_by_value(offs, listing, x, used_)))(set())))
         except (RuntimeError, AssertionError, TypeError, IndexError, ValueError, AttributeError, KeyError) as e:
             ev["kind"] = "raise"
             ev["exc"] = type(e).__name__
@@ -281,13 +281,21 @@ def _index_by_identity(sup, x):
     return 0
 
 
-def _index_by_value(offs, listing, x):
+def _index_by_value(offs, listing, x, used=None):
     if x.numel() == 0:
-        # an empty tensor carries no values: identified by its shape among the empty entries of the listing
-        for i, l in enumerate(listing):
-            if l.numel() == 0 and tuple(x.shape) == tuple(l.shape):
-                return i + 1
-        return 0
+        # an empty tensor carries no values: identified by its shape among the empty entries of the listing; several empty entries
+        # of one shape cannot be told apart, so the slots visited in order are given the matching entries in order (`used`), and
+        # the last matching one again when they are exhausted (a tensor listed once that fills several slots)
+        cands = [i + 1 for i, l in enumerate(listing) if l.numel() == 0 and tuple(x.shape) == tuple(l.shape)]
+        if not cands:
+            return 0
+        if used is None:
+            return cands[0]
+        for i in cands:
+            if i not in used:
+                used.add(i)
+                return i
+        return cands[-1]
     v = float(x.reshape(-1)[0]) - 1000.0
     for i, (o, l) in enumerate(zip(offs, listing)):
         if v == o and tuple(x.shape) == tuple(l.shape) and torch.equal(
